@@ -66,11 +66,17 @@ Depth(toks, i) == IF i = 0 THEN 0 ELSE Depth(toks, i - 1) + (IF toks[i] = "![" T
 (* ---- deviations (open known findings) ------------------------------------------------------ *)
 \* a segment after a chain operator holds an argument that reads as the start of a Python
 \* assignment to an expression (`--k=v`): the bare line is rejected although the explicit one runs
-HasAssignLike(s) == (\E i \in 1..Len(s.atoms) : s.atoms[i] = "lflageq") \/ (\E i \in 1..Len(s.pipe) : s.pipe[i] = "lflageq")
+\* (`--k=v`, and `a=b` / `k:v` after a dash word: `c1 -- a=b`, `c1 - k:v` read as an assignment / annotation)
+AssignLikeKinds == {"lflageq", "eqword", "colon"}
+HasAssignLike(s) == (\E i \in 1..Len(s.atoms) : s.atoms[i] \in AssignLikeKinds) \/ (\E i \in 1..Len(s.pipe) : s.pipe[i] \in AssignLikeKinds)
 AssignLikeAfterOperator(sh) == \E i \in 2..Len(sh.segs) : HasAssignLike(sh.segs[i])
 \* in a chain, the marker telling an operand that the chain (not the operand) reports failure is
 \* attached by one recognition path only: trees differ in that marker, behaviour differs under
 \* $XONSH_SUBPROC_CMD_RAISE_ERROR (C05's Dev_CmdRaiseDependsOnParsePath seen from this side)
+
+\* a backslash continuation inside a segment of a chain that sits in an indented block: the logical
+\* line is re-assembled and wrapped on its own, and the result drops or repeats commands
+ContinuationChainInBlock(sh) == Len(sh.segs) >= 2 /\ sh.pos.blocks # <<>> /\ \E i \in 1..Len(sh.segs) : sh.segs[i].cont > 0
 
 (* ---- actions ----------------------------------------------------------------------------- *)
 Init == shape = [segs |-> <<>>, ops |-> <<>>, pos |-> [semi |-> "none", comment |-> FALSE, blocks |-> <<>>]] /\ res = [same |-> TRUE, flagsame |-> TRUE, dev |-> ""] /\ phase = "idle"
@@ -81,6 +87,8 @@ Judge(sh) ==
   /\ \/ res' = [same |-> TRUE, flagsame |-> TRUE, dev |-> ""]
      \/ /\ "Dev_AssignLikeAfterOperator" \in Deviations /\ AssignLikeAfterOperator(sh)
         /\ res' = [same |-> FALSE, flagsame |-> TRUE, dev |-> "Dev_AssignLikeAfterOperator"]
+     \/ /\ "Dev_ContinuationChainInBlock" \in Deviations /\ ContinuationChainInBlock(sh)
+        /\ \E fs \in BOOLEAN : res' = [same |-> FALSE, flagsame |-> fs, dev |-> "Dev_ContinuationChainInBlock"]
      \/ /\ "Dev_BoolopFlagDependsOnParsePath" \in Deviations /\ Len(sh.segs) >= 2
         /\ res' = [same |-> TRUE, flagsame |-> FALSE, dev |-> "Dev_BoolopFlagDependsOnParsePath"]
 
